@@ -83,7 +83,7 @@ PROPS["C01"] = {
 PROPS["C13"] = {
     "level": "proof",
     "streams": ["cache"],
-    "ops": ["refresh"],
+    "ops": ["refresh", "inject", "permrestore"],
     "trusted_base": CACHE_TB,
     "assumptions": ["files taking part in a same-priority conflict count as files in error (I1)",
                     "directories that cannot be listed because of permissions are exercised only when the harness can drop privileges (counted as skipped otherwise)"],
@@ -94,9 +94,9 @@ PROPS["C13"] = {
 
 PROPS["C02"] = {
     "level": "proof",
-    "streams": ["cache"],
-    "ops": ["inject"],
-    "clauses": "panic|combined|applying|applied-with|resolvable-name",
+    "streams": ["cache", "defaultapi"],
+    "ops": ["inject", "defaultapi"],
+    "clauses": "panic|combined|applying|applied-with|resolvable-name|package-level",
     "trusted_base": CACHE_TB + ["identity of a loaded *Spec modelled by (path, priority)"],
     "assumptions": [],
     "technique": "Lean 4 proof: loop invariant of InjectDevices => one Apply of the declaratively defined combined edit list; dependence only on requested names; metamorphic correspondence (real InjectDevices vs real Apply of the combined list)",
@@ -106,9 +106,9 @@ PROPS["C02"] = {
 
 PROPS["C04"] = {
     "level": "proof",
-    "streams": ["cache"],
-    "ops": ["inject"],
-    "clauses": "panic|unresolv|nil-oci|oci-spec-modified|no-error",
+    "streams": ["cache", "defaultapi"],
+    "ops": ["inject", "defaultapi"],
+    "clauses": "panic|unresolv|nil-oci|oci-spec-modified|no-error|package-level",
     "trusted_base": CACHE_TB,
     "assumptions": [],
     "technique": "Lean 4 proof: same loop invariant => error with exactly the unresolved names in request order (with repetitions), no Apply; nil OCI guard; unresolved iff no declarative winner; before/after comparison of the real OCI spec",
@@ -144,8 +144,9 @@ PROPS["C14"] = {
 
 PROPS["C17"] = {
     "level": "translation_validation",
-    "streams": ["schema"],
-    "ops": ["verdicts"],
+    "streams": ["schema", "cli"],
+    "prebuild": [_core.build_cli],
+    "ops": ["verdicts", "validatetool"],
     "trusted_base": ["the Lean draft-07 semantics in CdiModel/Schema.lean define what the schema files mean; gojsonschema's conformance to it is established by this correspondence only",
                      "factgen F8: schema.json/defs.json -> Schema term ($ref resolution, keyword classification)",
                      "yaml/json text codecs (documents are generated at the value level and rendered)"],
@@ -207,7 +208,8 @@ PROPS["C19"] = {
 
 PROPS["C11"] = {
     "level": "proof",
-    "streams": ["watch"],
+    "streams": ["watch", "cache"],
+    "ops": ["events", "history", "bigdir", "permrestore"],
     "timeout": 2400,
     "trusted_base": ["inotify event generation as abstracted by the model's event table (validated against a plain fsnotify watcher on every run): which operations produce an event that passes the watcher's filter",
                      "fsnotify delivers queued events in order and does not overflow its queue for these histories",
@@ -252,7 +254,7 @@ PROPS["C12"] = {
 
 PROPS["C20"] = {
     "level": "proof",
-    "streams": ["reconf"],
+    "streams": ["reconf", "defaultapi"],
     "timeout": 2400,
     "trusted_base": ["closing an fsnotify watcher releases its inotify descriptor, its kernel watches and its reader goroutine (observed per case through /proc/self/fd, fdinfo and runtime.NumGoroutine)",
                      "descriptor shortage is produced with RLIMIT_NOFILE lowered to the number of open descriptors for the duration of one Configure call",
